@@ -324,7 +324,27 @@ impl Script {
     }
 
     pub fn remove_codeseparators(&mut self) {
-        self.0 = self.0.clone().into_iter().filter(|x| *x != ScriptBit::OpCode(OpCodes::OP_CODESEPARATOR)).collect();
+        self.0 = Script::strip_codeseparators(&self.0);
+    }
+
+    /// Copies the given script bits without any OP_CODESEPARATOR, at every nesting level
+    fn strip_codeseparators(bits: &[ScriptBit]) -> Vec<ScriptBit> {
+        let mut stripped = vec![];
+        for bit in bits {
+            match bit {
+                ScriptBit::OpCode(OpCodes::OP_CODESEPARATOR) => {}
+                ScriptBit::If { code, pass, fail } => stripped.push(ScriptBit::If {
+                    code: *code,
+                    pass: Script::strip_codeseparators(pass),
+                    fail: match fail {
+                        Some(fail) => Some(Script::strip_codeseparators(fail)),
+                        None => None,
+                    },
+                }),
+                o => stripped.push(o.clone()),
+            }
+        }
+        stripped
     }
 
     pub fn from_chunks(chunks: Vec<Vec<u8>>) -> Result<Script, BSVErrors> {
